@@ -1,7 +1,7 @@
 """C17 — prefix registration protocol (DESIGN §4 C17)."""
 import ast
 
-from .common import (ctx, family, returns, calls_in_ctx, reach_from_succ, site, srcs_text, resolve_call, const_bool, stmt_at, full_text)
+from .common import (ctx, family, returns, calls_in_ctx, reach_from_succ, site, srcs_text, resolve_call, const_bool, stmt_at, full_text, bound_args, call_arg)
 from ..esc import esc_of, short
 from ..flow import callee_attr
 from ..loader import AnalysisError, norm
@@ -207,7 +207,7 @@ def run(R):
             a = [x.value if isinstance(x, ast.Constant) else None for x in mc.args[:2]]
             if a != ['rib', verb]:
                 probs.append((f'command is {a}, expected ["rib", "{verb}"]', mc))
-            kw = {k.arg: k.value for k in mc.keywords}
+            kw = bound_args(P, cx, mc)
             if 'name' not in kw:
                 probs.append(('the prefix is not passed as control parameter `name`', mc))
             else:
@@ -222,7 +222,7 @@ def run(R):
             if face not in ('self.app.face', 'self.face'):
                 probs.append(('the face (local / non-local scope) is not passed to make_command', mc))
             fname = ast.unparse(mc.func).split('.')[-1]
-            skw = {k.arg: k.value for k in sc.keywords}
+            skw = bound_args(P, cx, sc)
             if meth == 'express':
                 if fname != 'make_command_v2':
                     probs.append(('v2 front-end must use make_command_v2 (signed Interest v0.3)', mc))
@@ -231,7 +231,7 @@ def run(R):
                     probs.append(("v2 command must carry app_param=b'' so that it is a signed Interest with a parameters digest", sc))
                 sg = skw.get('signer')
                 if not (isinstance(sg, ast.Call) and ast.unparse(sg.func).endswith('DigestSha256Signer')
-                        and any(k.arg == 'for_interest' and isinstance(k.value, ast.Constant) and k.value.value is True for k in sg.keywords)):
+                        and isinstance(call_arg(P, cx, sg, 'for_interest'), ast.Constant) and call_arg(P, cx, sg, 'for_interest').value is True):
                     probs.append(('v2 command must be signed with DigestSha256Signer(for_interest=True)', sc))
             else:
                 if fname != 'make_command':
